@@ -1,5 +1,6 @@
 import TxVerif.Props.C08
 import TxVerif.Tie.Skeleton
+import TxVerif.Props.C08Crash
 open TxVerif
 #print axioms writer_releases_all
 #print axioms reset_clears_error
@@ -11,3 +12,21 @@ open TxVerif
 #print axioms Tie.tryCommit_lock_ops
 #print axioms Tie.commitChanges_rollback
 #print axioms Tie.finishWith_closes
+#print axioms fsafe_step
+#print axioms fsafe_crash
+#print axioms crash_recovers_fail
+#print axioms crash_committed_only
+#print axioms syncFail_keeps_committed
+#print axioms failure_path_locked
+#print axioms restore_completes
+#print axioms failed_attempt_never_resurfaces
+#print axioms recover_tie
+#print axioms no_txid_tie
+#print axioms continuation_crash_safe
+#print axioms continuation_accepted
+#print axioms fsafe_preserved
+#print axioms fsafe_start
+#print axioms recovered_operational_fail
+#print axioms fxInit_safe
+#print axioms lax_discipline_not_crash_safe
+#print axioms no_restore_not_crash_safe
